@@ -763,6 +763,7 @@ func (pipeline *Pipeline) Run(commits []*object.Commit) (map[LeafPipelineItem]in
 		onProgress = func(int, int, string) {}
 	}
 	plan := prepareRunPlan(commits, pipeline.HibernationDistance, pipeline.DumpPlan)
+	verifObservePlan(plan)
 	progressSteps := len(plan) + 2
 	branches := map[int][]PipelineItem{}
 	// we will need rootClone if there is more than one root branch
